@@ -247,6 +247,37 @@ def c02_defaults():
     return out
 
 
+def compile_probes(pid, cases):
+    """compile-time facts about what the derive emits, decided by rustc: one bin target of /verif/replay-exec/dflt per case, whose source
+    states the expectation as trait-bound assertions; a case that does not compile is a violation with the compiler's first error"""
+    import vxreplay
+    out = []
+    d = os.path.join(vxreplay.EXEC_DIR, "dflt")
+    env = dict(os.environ, CARGO_NET_OFFLINE="true", CARGO_TARGET_DIR=vxreplay.EXEC_TARGET)
+    for case in cases:
+        src = open(os.path.join(d, "src", "bin", case + ".rs")).read()
+        what = src.splitlines()[0].lstrip("/ ").strip()
+        r = {"obligation": "%s.compile.%s.bounded" % (pid, case), "status": "ok", "bounded": True, "cases": 1,
+             "engine": "rustc (cargo check) on a consumer crate built against /repo's working tree", "what": what, "bound": "this one derive (replay-exec/dflt/src/bin/%s.rs)" % case,
+             "trusted": [], "cmd": "cargo check --offline -p vx-replay-dflt --bin %s (in /verif/replay-exec)" % case}
+        os.utime(os.path.join(d, "src", "bin", case + ".rs"), None)
+        p = subprocess.run(["cargo", "check", "--offline", "-p", "vx-replay-dflt", "--bin", case], cwd=vxreplay.EXEC_DIR, env=env, capture_output=True, text=True)
+        if p.returncode != 0:
+            errs = [l for l in p.stderr.splitlines() if l.startswith("error")]
+            if not errs or not any("vx-replay-dflt" in l for l in p.stderr.splitlines()):
+                r["status"] = "undecided"
+                r["detail"] = "the probe crate could not be built: " + p.stderr[-300:]
+            else:
+                first = next((l for l in errs if not l.startswith("error: could not compile")), errs[0])
+                attr = re.search(r"#\[graphql\(([^\]]*)\)\]", src)
+                r["status"] = "fail"
+                r["detail"] = "%s: the consumer does not compile: %s" % (what, first)
+                r["witness"] = {"case": {"derive_attribute": attr.group(1) if attr else "", "source": "replay-exec/dflt/src/bin/%s.rs" % case}, "observed": r["detail"], "bounded": True,
+                                "how": "cargo check -p vx-replay-dflt --bin %s (the real derive, built from /repo's working tree)" % case, "cases_tried": 1}
+        out.append(r)
+    return out
+
+
 def extra_checks_inner(pid, tier):
     try:
         if pid in ("C13", "C07", "C03", "C14", "C06"):
@@ -274,6 +305,8 @@ def extra_checks_inner(pid, tier):
             return c08_frame()
         if pid == "C02":
             return c02_defaults()
+        if pid == "C18":
+            return compile_probes("C18", ["c18_named_serde_derives", "c18_path_qualified_derives"])
     except Undecided as e:
         return [{"obligation": pid + ".shape", "status": "undecided", "engine": "declaration-shape", "detail": str(e)}]
     return []
